@@ -1440,25 +1440,35 @@ class CryptographyEngine(api.CryptographicEngine):
                 "specified."
             )
 
-        if padding == enums.PaddingMethod.PSS:
-            signature = key.sign(
-                data,
-                asymmetric_padding.PSS(
-                    mgf=asymmetric_padding.MGF1(hash_alg()),
-                    salt_length=asymmetric_padding.PSS.MAX_LENGTH
-                ),
-                hash_alg()
-            )
-        elif padding == enums.PaddingMethod.PKCS1v15:
-            signature = key.sign(
-                data,
-                padding_method(),
-                hash_alg()
-            )
-        else:
+        if padding not in (enums.PaddingMethod.PSS,
+                           enums.PaddingMethod.PKCS1v15):
             raise exceptions.InvalidField(
                 "Padding method '{0}' is not a supported signature "
                 "padding method.".format(padding)
+            )
+        try:
+            if padding == enums.PaddingMethod.PSS:
+                signature = key.sign(
+                    data,
+                    asymmetric_padding.PSS(
+                        mgf=asymmetric_padding.MGF1(hash_alg()),
+                        salt_length=asymmetric_padding.PSS.MAX_LENGTH
+                    ),
+                    hash_alg()
+                )
+            else:
+                signature = key.sign(
+                    data,
+                    padding_method(),
+                    hash_alg()
+                )
+        except Exception as e:
+            # E.g. the key bytes are a valid private key of another kind
+            # (EC) than the RSA parameters of the request.
+            self.logger.exception(e)
+            raise exceptions.CryptographicFailure(
+                "An error occurred while signing the data. See the server "
+                "log for more information."
             )
         return signature
 
